@@ -3,6 +3,7 @@ package harness
 import (
 	"bytes"
 
+	"github.com/cuteLittleDevil/go-jt808/protocol/model"
 	"github.com/cuteLittleDevil/go-jt808/shared/consts"
 
 	"verifsim/gen/attachment"
@@ -51,6 +52,10 @@ func (w *world) startAttachment() {
 			return &recFileEventer{w: w, conn: connOfPeer(simnet.LastAccepted)}
 		}))
 	}
+	if w.plan.Att.CustomData {
+		dialect := consts.ActiveSafetyType(w.plan.Att.Dialect)
+		opts = append(opts, attachment.WithDataHandleFunc(func() attachment.DataHandler { return newUserDataHandler(dialect) }))
+	}
 	h.srv = attachment.New(opts...)
 	simrt.GoNamed("att.Run", "att.Run", h.srv.Run)
 }
@@ -91,6 +96,39 @@ func sortStrings(s []string) {
 	for i := 1; i < len(s); i++ {
 		for j := i; j > 0 && s[j] < s[j-1]; j-- {
 			s[j], s[j-1] = s[j-1], s[j]
+		}
+	}
+}
+
+// userDataHandler is a data handler as a user of WithDataHandleFunc writes it: the package's base handler embedded,
+// the record table kept by the user's own code.
+type userDataHandler struct {
+	attachment.BaseJT808DataHandler[*model.T0x1210, *model.T0x1211, *model.T0x1212]
+}
+
+//go:norace
+func newUserDataHandler(as consts.ActiveSafetyType) *userDataHandler {
+	return &userDataHandler{BaseJT808DataHandler: attachment.BaseJT808DataHandler[*model.T0x1210, *model.T0x1211, *model.T0x1212]{
+		T0x1210: &model.T0x1210{P9208AlarmSign: model.P9208AlarmSign{ActiveSafetyType: as}},
+		T0x1211: &model.T0x1211{},
+		T0x1212: &model.T0x1212{},
+	}}
+}
+
+func (h *userDataHandler) OnPackageProgressEvent(progress *attachment.PackageProgress) {
+	h.BaseJT808DataHandler.OnPackageProgressEvent(progress)
+	switch h.Command {
+	case consts.T1210AlarmAttachInfoMessage:
+		for _, v := range h.T0x1210.T0x1210AlarmItemList {
+			progress.Record[v.FileName] = &attachment.Package{FileName: v.FileName, FileSize: v.FileSize,
+				OffsetDataRecord: map[int][]byte{}, OffsetRecord: map[int]int{}}
+		}
+	case consts.T1212FileUploadComplete:
+		if v, ok := progress.Record[h.T0x1212.FileName]; ok {
+			h.T0x1212.P0x9212RetransmitPacketList = v.StatisticalMissSegments()
+			if len(h.T0x1212.P0x9212RetransmitPacketList) > 0 {
+				progress.ProgressStage = attachment.ProgressStageSupplementary
+			}
 		}
 	}
 }
